@@ -192,6 +192,27 @@ class ListOf(Shape):
         return l
 
 
+class LazyList(Shape):
+    """list with a concrete number of elements, each instantiated (and its
+    alternatives forked) only when first inspected"""
+    def __init__(self, items, kind='list'):
+        self.items, self.kind = items, kind
+
+    def sym(self, ex, name):
+        out = []
+        for i, s in enumerate(self.items):
+            def thunk(ex_, s=s, i=i):
+                v = s.sym(ex_, '%s[%d]' % (name, i))
+                if ex_.ghost.get('live_env') is not None:
+                    tmp = dict(ex_.ghost['live_env'])
+                    tmp['__result__'] = v
+                    resolve_refs(ex_, tmp)
+                    v = tmp['__result__']
+                return v
+            out.append(LazyVal(thunk))
+        return SList(out, self.kind)
+
+
 class HeadTail(Shape):
     """list/deque: concrete head elements followed by a symbolic-length tail"""
     def __init__(self, head, tail, kind='deque'):
@@ -255,6 +276,12 @@ class Ref(Shape):
     """reference to a previously built parameter (aliasing / back pointers)"""
     def __init__(self, path):
         self.path = path
+
+    def sym(self, ex, name):
+        return ('__ref__', self.path)
+
+    def sym_at(self, ex, name, idx):
+        return ('__ref__', self.path)
 
 
 class Obj(Shape):
@@ -326,19 +353,29 @@ def resolve_refs(ex, env):
             v = v.fields[p]
         return v
 
+    def isref(x):
+        return isinstance(x, tuple) and len(x) == 2 and x[0] == '__ref__'
+
     def walk(v):
         if isinstance(v, SObj):
             if id(v) in seen:
                 return
             seen.add(id(v))
             for k, x in list(v.fields.items()):
-                if isinstance(x, tuple) and len(x) == 2 and x[0] == '__ref__':
+                if isref(x):
                     v.fields[k] = get(x[1])
                 else:
                     walk(x)
         elif isinstance(v, SList):
-            for x in v.left + v.right:
-                walk(x)
+            for part in (v.left, v.right):
+                for i, x in enumerate(part):
+                    if isref(x):
+                        part[i] = get(x[1])
+                    elif isinstance(x, LazyVal):
+                        if x.forced:
+                            walk(x.value)
+                    else:
+                        walk(x)
         elif isinstance(v, tuple):
             for x in v:
                 walk(x)
@@ -368,6 +405,10 @@ def deep_copy(v, memo):
         for k, x in v.fields.items():
             o.fields[k] = deep_copy(x, memo)
         return o
+    if isinstance(v, LazyVal):
+        if v.forced:
+            return deep_copy(v.value, memo)
+        return LazyVal(None, link=v)
     if isinstance(v, SList):
         l = SList([], v.kind)
         memo[id(v)] = l
@@ -427,6 +468,12 @@ def concretize(ex, v, m, memo=None, depth=0):
         raise Unsupported('model value %s' % r)
     if v is None or isinstance(v, (bool, int, float, str)):
         return v
+    if isinstance(v, LazyVal):
+        if v.forced:
+            return concretize(ex, v.value, m, memo)
+        if v.link is not None and v.link.forced:
+            return concretize(ex, v.link.pristine_copy(), m, memo)
+        return None
     if isinstance(v, SInt):
         if isinstance(v.t, z3.BitVecRef):
             return m.eval(v.t, model_completion=True).as_long()
